@@ -128,6 +128,11 @@ def special_stream():
         ex.append("contains(%s, ' ')" % a)
         ex.append("boolean(normalize-space(%s))" % a)
         ex.append("substring-before(normalize-space(%s), ' ')" % a)
+    # translate: the FIRST occurrence of a character in the second argument decides (XPath 1.0 4.2), also when it is removed
+    for a in sets[:6] + lits[:3] + ["'banana'", "'abcabc'"]:
+        for frm, to in (("'aba'", "'xyz'"), ("'aa'", "'1'"), ("'ana'", "'xyz'"), ("'abca'", "'AB'"), ("'  '", "'_'"), ("'a a'", "'12'"),
+                        ("'\u00a0\u00a0 '", "'_=+'"), ("'bb'", "''"), ("'xyzx'", "'123456'")):
+            ex.append("translate(%s, %s, %s)" % (a, frm, to))
     for e in ("//*[normalize-space() = '']", "//*[normalize-space() = 'a b']", "//*[normalize-space(.) = .]", "//*[normalize-space(@a)]",
               "//*[not(normalize-space())]", "//text()[normalize-space() != .]", "//@*[normalize-space() = '']",
               "count(//*[string-length(normalize-space()) = string-length()])", "//*[number() = number()]", "sum(//i)", "//i[. > 0]",
@@ -370,6 +375,12 @@ def run_c06(chk):
         streams.append(("valid", _spell(rng, eg.expr(), ws=rng.random() < 0.3)))
     for _ in range(n // 2):
         streams.append(("unsupported", _spell(rng, eg.unsupported_expr())))
+    # node-type tests with an argument: only processing-instruction takes one (a literal); anything else in the parentheses
+    # is a syntax error, wherever a step may stand
+    for nt in ("text", "comment", "node", "processing-instruction"):
+        for arg in ("'x'", '"c"', " 'n' ", "''", "1", "a", ".", "'a','b'", "text()", "@x", "*", "'x", "$v"):
+            for ctx in ("//%s", "/r/%s", "/r/child::%s", "/r[a = 1 and %s]", "%s", "self::%s", "//a/@x/%s", "(//%s)[1]", "count(%s)"):
+                streams.append(("nodetype-arg", ctx % ("%s(%s)" % (nt, arg))))
     for _ in range(n):
         streams.append(("garbage", "".join(rng.choice(GARBAGE) for _ in range(rng.randint(0, 14)))))
     # token-level mutants of valid expressions
@@ -461,6 +472,41 @@ def run_c06(chk):
             if out in BAD:
                 bad.append(("<r><a><a><a/></a></a></r>", "hostile:%s:%d" % (name, k), e if len(e) < 400 else "family %s(%d) of xp_families()" % (name, k), out))
     chk.cov["hostile_sizes"] = hostile
+    # ---- a refusal leaves nothing behind: expressions within the nesting limit get the same answer after many expressions
+    # beyond the limit were refused in the same process (same thread) as they get when asked first
+    if lim:
+        rdoc = "<r><a><a><a/></a></a></r>"
+        recovery = ["(" * (lim - 1) + "1" + ")" * (lim - 1), "((1))", "-(1)", "1 + (2)", "not(not(true()))", "/r[a[a[a]]]",
+                    "count(//a[../a])", "(((//a)))[1]"]
+        for name in ("parens", "preds", "calls"):
+            if name not in fams:
+                continue
+            deep = [fams[name](lim + 1 + (i % 3)) for i in range(lim + 3)]
+            first = lib.run_lines(h0, [lib.req("query", rdoc, "", *recovery)], timeout=60)[0]
+            after = lib.run_lines(h0, [lib.req("query", rdoc, "", *(deep + recovery))], timeout=120)[0]
+            f1, _, _ = _fields(first, len(recovery))
+            f2, _, _ = _fields(after, len(deep) + len(recovery))
+            chk.count(["recovery", name], nontrivial=True)
+            for e, x, y in zip(recovery, f1, f2[len(deep):]):
+                if x != y:
+                    bad.append((rdoc, "recovery:%s" % name, e, "answers %s after %d expressions of family %s nested beyond the limit were "
+                                "refused in the same process; asked first it answers %s" % (y, len(deep), name, x)))
+                    break
+    # ---- predicates nested to the limit on a document where every one of them is actually evaluated (a chain of elements):
+    # the work must not double with every level
+    if lim:
+        depth = lim + 2
+        chain = "<a>" * depth + "</a>" * depth
+        for n in (8, 16, 24, lim - 2):
+            for name, e in (("nestpred", "/a" + "[a" * n + "]" * n), ("nestnot", "/a" + "[not(a" * (n // 2) + ")]" * (n // 2)),
+                            ("nestand", "/a" + "[a and a" * (n // 2) + "]" * (n // 2))):
+                t0 = time.time()
+                out = lib.run_lines(h0, [lib.req("query", chain, "", e)], timeout=per_line * 2)[0].split(" || ")[0]
+                chk.count(["nested-predicates", name, n], nontrivial=True)
+                if out in BAD or time.time() - t0 > per_line:
+                    bad.append((chain, "%s:%d" % (name, n), e, "%s after %.1fs (predicates nested %d deep on a chain of %d elements)"
+                                % (out if out in BAD else "answer", time.time() - t0, n, depth)))
+                    break
     # ---- growth: time(2n) / time(n) on the real code
     h = lib.build_harness()
     growth = {}
